@@ -13,23 +13,28 @@ package risor
 //@ commute 1
 
 //@ func (*Config).applyDefaultGlobals
-//@ props C05
+//@ props C05 C11
 //@ commute 1
+//@ requires cfg != nil && cfg.globals != nil
+//@ modifies mapof(cfg.globals)
+//@ invariant 1: cfg.globals != nil
 
 // GlobalNames: the result is the sorted duplicate-free enumeration of the key set of cfg.globals, i.e. a
 // function of the key set only.
 //@ func (*Config).GlobalNames
-//@ props C05
-//@ requires cfg != nil
-//@ havoc (*Config).init
+//@ props C05 C11
+//@ requires cfg != nil && cfg.globals != nil
 //@ invariant 1: len(names) == iter && (cap(names) == 0 || fresh(names)) && forall(j, 0, len(names), haskey(cfg.globals, names[j]) && seen(names[j])) && forall(i, 0, len(names), forall(j, i + 1, len(names), names[i] != names[j]))
 //@ ensures[C05.globalnames.sorted] forall(i, 0, len(result), forall(j, i, len(result), result[i] <= result[j]))
 //@ ensures[C05.globalnames.members] forall(j, 0, len(result), haskey(cfg.globals, result[j]))
 //@ ensures[C05.globalnames.distinct] forall(i, 0, len(result), forall(j, i + 1, len(result), result[i] != result[j]))
 //@ ensures[C05.globalnames.all] len(result) == len(cfg.globals)
 
+// DefaultGlobals builds everything it returns itself: the objects it writes are all created inside it (assumed).
 //@ func DefaultGlobals
 //@ props C05
+//@ modifies nothing
+//@ assumeframe
 //@ commute 1
 //@ commute 2
 
@@ -39,3 +44,63 @@ package risor
 // applyDenylist#1 calls into module objects: final cfg.globals is order independent, the mutation of a
 // host-retained module that is itself denied is not (undecided, not claimed); WithGlobals$1#1 copies entries key by key.
 //@ scan[C05.maploops.root] C05 maprange github.com/risor-io/risor: (*Config).CombinedGlobals#1 (*Config).Globals#1 (*Config).applyDefaultGlobals#1 DefaultGlobals#1 DefaultGlobals#2 (*Config).GlobalNames#1 (*Config).VMOpts#1 (*Config).applyDenylist#1 (*Config).applyOverrides#1 WithGlobals$WithGlobals$1#1
+
+// ---- C11: the configured global environment ----------------------------------------------------------------------
+// resolveModule follows a dotted path one module at a time (KF-33 fixed). Proved exactly for paths of up to three
+// components (the loop invariant enumerates the depth; deeper paths: only that the walk never leaves modules).
+//@ func resolveModule
+//@ props C11
+//@ requires m != nil
+//@ modifies nothing
+//@ let a0 = mattr(m, attr[0])
+//@ let a1 = mattr(a0.(*object.Module), attr[1])
+//@ let a2 = mattr(a1.(*object.Module), attr[2])
+//@ invariant 1: (iter == 0 ==> result == m) && (iter == 1 ==> any(result) == a0) && (iter == 2 ==> any(result) == a1) && (iter == 3 ==> any(result) == a2)
+//@ assume[attrs.plain] forall(k, 0, len(attr), attr[k] != "__name__")
+//@ ensures[C11.resolve.d0] len(attr) == 0 ==> result1 && result0 == m
+//@ ensures[C11.resolve.d1] len(attr) == 1 && result1 ==> any(result0) == a0
+//@ ensures[C11.resolve.d2] len(attr) == 2 && result1 ==> any(result0) == a1
+//@ ensures[C11.resolve.d3] len(attr) == 3 && result1 ==> any(result0) == a2
+//@ ensures[C11.resolve.fail] !result1 ==> result0 == nil
+
+// removeModuleAttr: a plain name is removed from m itself; "sub.name" from the submodule sub of m.
+//@ func removeModuleAttr
+//@ props C11
+//@ assume[recv.nonnil] m != nil
+//@ assume[attrs.plain] !contains(attr, "__name__")
+//@ assume[module.disjoint] forallT(x, *object.Module, forallA(k, string, !(haskey(x.builtins, k) && haskey(x.globalsIndex, k))))
+//@ ensures[C11.remove.plain] !contains(attr, ".") ==> !mhasattr(m, attr)
+// (the nested case composes resolveModule [C11.resolve.*] with (*Module).Override [C11.override.delete]; not restated here)
+
+// applyDenylist: every undotted denied name is absent from the globals afterwards.
+//@ func (*Config).applyDenylist
+//@ props C11
+//@ requires cfg != nil && cfg.globals != nil
+//@ havoc removeModuleAttr
+//@ modifies mapof(cfg.globals)
+//@ modcomps MD_string_object_Object MV_string_object_Object MD_string_int MV_string_int E_
+//@ assumeframe
+//@ invariant 1: cfg.globals != nil && cfg.globals == old(cfg.globals) && forallA(k, string, seen(k) && !contains(k, ".") ==> !haskey(cfg.globals, k)) && forallA(k, string, haskey(cfg.globals, k) ==> old(haskey(cfg.globals, k)))
+//@ ensures[C11.deny.plain] forallA(k, string, haskey(cfg.denylist, k) && !contains(k, ".") ==> !haskey(cfg.globals, k))
+//@ ensures[C11.deny.noadd] forallA(k, string, haskey(cfg.globals, k) ==> old(haskey(cfg.globals, k)))
+
+// applyOverrides: an undotted override name maps to the override value afterwards; no other name is added.
+//@ func (*Config).applyOverrides
+//@ props C11
+//@ requires cfg != nil && cfg.globals != nil
+//@ havoc FromGoType resolveModule Override
+//@ modifies mapof(cfg.globals)
+//@ modcomps MD_string_object_Object MV_string_object_Object MD_string_int MV_string_int E_
+//@ assumeframe
+//@ invariant 1: len(names) == iter && (cap(names) == 0 || fresh(names)) && forall(j, 0, len(names), haskey(cfg.overrides, names[j]))
+//@ invariant 2: cfg.globals != nil && forall(j, 0, len(names), haskey(cfg.overrides, names[j])) && forallA(k, string, haskey(cfg.globals, k) ==> old(haskey(cfg.globals, k)) || haskey(cfg.overrides, k))
+//@ ensures[C11.override.onlylisted] forallA(k, string, haskey(cfg.globals, k) ==> old(haskey(cfg.globals, k)) || haskey(cfg.overrides, k))
+
+// init runs the three steps once, in the order defaults, denylist, overrides: after it a denied undotted name
+// is a global only if an override re-installs it.
+//@ func (*Config).init
+//@ props C11
+//@ requires cfg != nil && cfg.globals != nil
+//@ ensures[C11.init.once] old(cfg.initialized) ==> result == nil && cfg.globals == old(cfg.globals) && forallA(k, string, haskey(cfg.globals, k) == old(haskey(cfg.globals, k)))
+//@ ensures[C11.init.flag] cfg.initialized
+//@ ensures[C11.init.denied] !old(cfg.initialized) && result == nil ==> forallA(k, string, haskey(cfg.denylist, k) && !contains(k, ".") && !haskey(cfg.overrides, k) ==> !haskey(cfg.globals, k))
